@@ -34,6 +34,11 @@ type C15W struct {
 	Restart  bool   `json:"restart,omitempty"`
 	CfgKind2 string `json:"cfg_kind2,omitempty"`
 	CfgBits2 uint32 `json:"cfg_bits2,omitempty"`
+	// AbortSplit: before everything else the stub goes through a session in which the runtime sends
+	// the first AbortSplit chunk(s) of a split synchronization and then drops the connection; the
+	// real session that follows synchronizes a different state in Chunks messages.
+	AbortSplit int `json:"abort_split,omitempty"`
+	Chunks     int `json:"chunks,omitempty"`
 }
 
 func c15Gen(rng *rand.Rand, conf string, idx int) any {
@@ -42,6 +47,12 @@ func c15Gen(rng *rand.Rand, conf string, idx int) any {
 		w.Mask = uint32(idx%8191) + 1
 	} else {
 		w.Mask = uint32(1 + rng.Intn(8191))
+		if rng.Intn(2) == 0 {
+			// half of the random cases use a type that also has a Configure/Synchronize variant
+			for !c15types.HasConfigured(w.Mask) {
+				w.Mask = uint32(1 + rng.Intn(8191))
+			}
+		}
 		if rng.Intn(200) == 0 {
 			w.Empty = true
 		}
@@ -78,6 +89,12 @@ func c15Gen(rng *rand.Rand, conf string, idx int) any {
 				w.CfgBits2 = w.Mask
 			}
 		}
+	}
+	if w.Configured && w.CfgKind != "extra" && rng.Intn(3) == 0 {
+		w.AbortSplit = 1 + rng.Intn(2)
+	}
+	if w.Configured && rng.Intn(3) == 0 {
+		w.Chunks = 2 + rng.Intn(3)
 	}
 	ns := 1 + rng.Intn(3)
 	perm := rng.Perm(13)
@@ -238,15 +255,58 @@ func c15Run(t *testing.T, wl any, sc SchedCfg) *Result {
 			return
 		}
 		e.OnTeardown(func() { st.Stop() })
+		mkState := func(tag string, np, nc int) ([]*api.PodSandbox, []*api.Container) {
+			var ps []*api.PodSandbox
+			var cs []*api.Container
+			for i := 0; i < np; i++ {
+				ps = append(ps, &api.PodSandbox{Id: fmt.Sprintf("%s-pod%d", tag, i), Name: tag})
+			}
+			for i := 0; i < nc; i++ {
+				cs = append(cs, &api.Container{Id: fmt.Sprintf("%s-ctr%d", tag, i), PodSandboxId: fmt.Sprintf("%s-pod0", tag)})
+			}
+			return ps, cs
+		}
+		base := 0
+		h.Setup = func(r *RTEnd) {
+			if w.AbortSplit > 0 && r.N == 0 {
+				r.Pods, r.Ctrs = mkState("old", 6, 6)
+				r.Chunks, r.AbortAfter = 3, w.AbortSplit
+				return
+			}
+			if w.Configured {
+				r.Pods, r.Ctrs = mkState(fmt.Sprintf("s%d", r.N), 3+r.N, 4+r.N)
+				r.Chunks = w.Chunks
+			}
+		}
+		if w.AbortSplit > 0 {
+			var err0 error
+			e.Task("aborted-session", func() {
+				err0 = st.Start(context.Background())
+				e.S.Settle("aborted-session")
+				st.Stop()
+				e.S.Settle("aborted-session")
+			})
+			if err := e.RunUntil(300000, func() bool { return e.TasksDone() }); err != nil {
+				res.Violate("C15.restart", "the session with the aborted split synchronization did not end: %v; pending %v", err, e.S.Pending())
+				return
+			}
+			_ = err0
+			base = 1
+			if rec.Syncs != 0 {
+				res.Violate("C15.dispatch", "the Synchronize handler was called %d times although the runtime never sent the final chunk of the split synchronization", rec.Syncs)
+			}
+			rec.CfgCalls, rec.Syncs, rec.SyncPods, rec.SyncCtrs = 0, 0, nil, nil
+			res.Probe("C15.aborted-split-sync-before-the-session")
+		}
 		var startErr error
 		e.Task("start", func() { startErr = st.Start(context.Background()) })
 		if err := e.RunUntil(200000, func() bool {
-			return e.TasksDone() && len(h.Ends) == 1 && (h.Ends[0].IsReady() || h.Ends[0].IsDown() || startErr != nil)
+			return e.TasksDone() && len(h.Ends) == base+1 && (h.Ends[base].IsReady() || h.Ends[base].IsDown() || startErr != nil)
 		}); err != nil {
 			res.Violate("C15.handshake", "handshake did not finish: %v; pending %v", err, e.S.Pending())
 			return
 		}
-		end := h.Ends[0]
+		end := h.Ends[base]
 		if wantFail {
 			// let the Configure reply reach the runtime end
 			e.RunUntil(100000, func() bool {
@@ -272,7 +332,22 @@ func c15Run(t *testing.T, wl any, sc SchedCfg) *Result {
 			res.Violate("C15.configure-once", "Configure handler called %d times", rec.CfgCalls)
 		}
 		if w.Configured && rec.Syncs != 1 {
-			res.Violate("C15.dispatch", "Synchronize handler called %d times", rec.Syncs)
+			res.Violate("C15.dispatch", "Synchronize handler called %d times (aborted split sync before: %d chunk(s); this session's state sent in %d message(s))", rec.Syncs, w.AbortSplit, w.Chunks)
+		}
+		if w.Configured && rec.Syncs == 1 {
+			ids := func(ps []*api.PodSandbox, cs []*api.Container) string {
+				var x []string
+				for _, p := range ps {
+					x = append(x, p.GetId())
+				}
+				for _, c := range cs {
+					x = append(x, c.GetId())
+				}
+				return strings.Join(x, " ")
+			}
+			if got, want := ids(rec.SyncPods, rec.SyncCtrs), ids(end.Pods, end.Ctrs); got != want {
+				res.Violate("C15.payload", "Synchronize handler received [%s], the runtime sent [%s] in this session (in %d message(s); chunks of an aborted earlier synchronization: %d)", got, want, end.ChunksSent, w.AbortSplit)
+			}
 		}
 		// messages
 		var sent []*c15Sent
@@ -412,7 +487,7 @@ func c15Run(t *testing.T, wl any, sc SchedCfg) *Result {
 				err2 = st.Start(context.Background())
 			})
 			if err := e.RunUntil(300000, func() bool {
-				return e.TasksDone() && (err2 != nil || (len(h.Ends) == 2 && h.Ends[1].IsReady()))
+				return e.TasksDone() && (err2 != nil || (len(h.Ends) == base+2 && h.Ends[base+1].IsReady()))
 			}); err != nil {
 				res.Violate("C15.restart", "restart of the stub did not finish: %v; pending %v", err, e.S.Pending())
 				return
@@ -422,7 +497,7 @@ func c15Run(t *testing.T, wl any, sc SchedCfg) *Result {
 				res.Violate("C15.mask", "plugin implements %s; first session configured %s %#x; restarted with %s %#x (all within the implemented events): Start failed: %v", handlerNames(w.Mask), w.CfgKind, uint32(requested), w.CfgKind2, uint32(requested2), err2)
 				return
 			}
-			end2 := h.Ends[1]
+			end2 := h.Ends[base+1]
 			if api.EventMask(end2.Events) != want2 {
 				res.Violate("C15.mask", "plugin implements %s; first session configured %s %#x; after a restart with %s %#x the subscribed mask is %#x, want %#x", handlerNames(w.Mask), w.CfgKind, uint32(requested), w.CfgKind2, uint32(requested2), end2.Events, uint32(want2))
 			}
